@@ -1,5 +1,6 @@
 import NasdaqModel.Driver.Sexp
 import NasdaqModel.Spec.FixDict
+import NasdaqModel.Spec.FixDictEnum
 /-
 Line protocol for the FIX generator model (C16).  Text is a list of code points `(78 111 …)`.
 
@@ -7,6 +8,7 @@ Line protocol for the FIX generator model (C16).  Text is a list of code points 
   gen.load <dict>   -> ok (loaded …) | err <class>       generate + import: classes with references followed
   gen.denote <dict> -> ok (loaded …) | err <class>       reference semantics of the dictionary (Spec/FixDict.lean)
   gen.wf   <dict>   -> true | false                      `wfDict d && supportedVersion d.version`
+  gen.wfe  <dict>   -> true | false                      `wfDictE d && supportedVersion d.version` (enumerated values over printable ASCII)
   gen.types <ver>   -> ok ((name cls kind) …) | err
   gen.keywords      -> ((…) …)
 
@@ -129,6 +131,9 @@ def handle (op : String) (args : List Sexp) : Option String :=
   | "gen.wf", [d] => do
       let d ← dictOf d
       some (if wfDict d && supportedVersion d.version then "true" else "false")
+  | "gen.wfe", [d] => do
+      let d ← dictOf d
+      some (if wfDictE d && supportedVersion d.version then "true" else "false")
   | "gen.scoped", [d] => do
       let d ← dictOf d
       match gen d with
